@@ -505,6 +505,10 @@ func runC14(c *Ctx) {
 					return ls
 				}
 				goodKeys := []lease_set2.EncryptionKey{{KeyType: 4, KeyLen: 32, KeyData: r.Bytes(32)}}
+				// up to the documented maximum of 16 keys
+				for nk := []int{1, 1, 2, 16, 15, 3}[i%6]; len(goodKeys) < nk; {
+					goodKeys = append(goodKeys, lease_set2.EncryptionKey{KeyType: 4, KeyLen: 32, KeyData: r.Bytes(32)})
+				}
 				reparse2 := func(b []byte) (bool, []byte, []byte) {
 					x, rem, e := lease_set2.ReadLeaseSet2(cat(b, make([]byte, 0)))
 					if e != nil {
